@@ -1,6 +1,8 @@
 """C02 — PUS-C telecommand"""
+import binascii
 import random
-from typing import Iterator
+import struct
+from typing import Callable, Dict, Iterator, List, Optional, Tuple
 
 import core
 from core import Case, Prop, SelfCheckFailure
@@ -82,6 +84,79 @@ def rand_args(rng, dlen=None):
 def with_crc(body: bytes) -> bytes:
     c = CRC16_CCITT_FUNC(body)
     return body + bytes([c >> 8, c & 0xFF])
+
+
+# --------------------------------------------------------------------------------------------
+# inputs whose running CRC passes through 0x0000 (a checksum that is computed in pieces must continue from the value
+# it reached, also when that value is 0) — found by solving, not by search: a CRC is affine over GF(2) in any set of
+# input bits
+# --------------------------------------------------------------------------------------------
+def crc_ccitt(data: bytes, start: int = 0xFFFF) -> int:
+    """CRC-16/CCITT-FALSE by the standard library (independent of crcmod and of the package under test)"""
+    return binascii.crc_hqx(bytes(data), start)
+
+
+def fit_bits(f: Callable[[int], int], nbits: int, target: int = 0) -> Optional[int]:
+    """a v in [0, 2^nbits) with f(v) == target, for f affine over GF(2) (a CRC as a function of `nbits` bits of its
+    input); None if there is none"""
+    base = f(0)
+    basis: Dict[int, Tuple[int, int]] = {}
+    for i in range(nbits):
+        vec, combo = f(1 << i) ^ base, 1 << i
+        while vec:
+            p = vec.bit_length() - 1
+            if p not in basis:
+                basis[p] = (vec, combo)
+                break
+            vec ^= basis[p][0]
+            combo ^= basis[p][1]
+    w, v = base ^ target, 0
+    while w:
+        p = w.bit_length() - 1
+        if p not in basis:
+            return None
+        w ^= basis[p][0]
+        v ^= basis[p][1]
+    return v
+
+
+def spread(a: Dict, free: List[Tuple[str, int]], v: int) -> Dict:
+    """`a` with the fields of `free` [(key, width in bits)] taken from the bits of v"""
+    b = dict(a)
+    for key, bits in free:
+        b[key] = v & ((1 << bits) - 1)
+        v >>= bits
+    return b
+
+
+def spec_tc(a) -> bytes:
+    """the octets the statement prescribes, without the trailer"""
+    data = unhx(a["data"])
+    return (struct.pack("!HHH", 0x1800 | a["apid"], 0xC000 | a["count"], len(data) + 6)
+            + bytes([0x20 | a["ack"], a["service"], a["subservice"]]) + struct.pack("!H", a["source_id"]) + data)
+
+
+TC_FREE = {
+    "sph": [[("count", 14), ("apid", 11)]],
+    "before-source-id": [[("subservice", 8), ("service", 8)], [("count", 14), ("apid", 11)], [("ack", 4), ("service", 8), ("subservice", 8)]],
+    "headers": [[("source_id", 16)], [("source_id", 16)], [("subservice", 8), ("service", 8)], [("count", 14), ("apid", 11)]],
+}
+TC_UPTO = {"sph": 6, "before-source-id": 9, "headers": 11}
+
+
+def zero_crc_tc(rng, stage: str, dlen: Optional[int] = None) -> Optional[Dict]:
+    """arguments of a telecommand with non-empty application data for which the CRC-16 of the octets up to the end of
+    `stage` is exactly 0x0000 ('body': of everything before the trailer, so the trailer itself is 0000)"""
+    a = rand_args(rng, rng.choice([1, 2, 3, 4, 7, 16, 40, rng.randint(1, 300)]) if dlen is None else dlen)
+    if stage == "body":
+        body = spec_tc(a)
+        if len(unhx(a["data"])) < 2:
+            return None
+        a["data"] = hx(body[11:-2] + crc_ccitt(body[:-2]).to_bytes(2, "big"))
+        return a
+    free = rng.choice(TC_FREE[stage])
+    v = fit_bits(lambda v: crc_ccitt(spec_tc(spread(a, free, v))[:TC_UPTO[stage]]), sum(b for _, b in free))
+    return None if v is None else spread(a, free, v)
 
 
 class C02(Prop):
@@ -180,6 +255,46 @@ class C02(Prop):
                 buf = body + bytes(b[total:])
                 exp = "invalid" if total < 13 else "any"
                 yield Case({"op": "tc_unpack", "raw": hx(buf)}, exp, tag="declared-length-crafted")
+        # the same with the other bits of the first octet varied too (secondary-header flag clear, packet type TM,
+        # version != 0 — whatever the primary header announces, a declared length that cannot hold secondary header and
+        # CRC is refused), the short "packet" being followed by a further valid telecommand: nothing may be decoded
+        # from the neighbour
+        for i in range(60 if thorough else 12):
+            a = rand_args(rng, rng.randint(0, 12))
+            nxt = with_crc(spec_tc(rand_args(rng, rng.choice([0, 0, 1, 5]))))
+            first = bytearray(with_crc(spec_tc(a)))
+            for name, o0 in (("no-sec-header-flag", first[0] & ~0x08), ("type-tm", first[0] & ~0x10),
+                             ("version", first[0] | rng.randint(1, 7) << 5),
+                             ("first-octet", (first[0] & 0x07) | rng.randrange(32) << 3)):
+                for L in range(0, 21):
+                    total = L + 7
+                    if total >= 13 and i % 4:
+                        continue
+                    b = bytearray(first)
+                    b[0], b[4], b[5] = o0 & 0xFF, 0, L
+                    b = b[:total]
+                    b += bytes(total - len(b))
+                    if total == 8:
+                        # the CRC octets are where the PUS version nibble is read: look for an APID that makes it 2
+                        for lo in range(256):
+                            if crc_ccitt(bytes(b[:1]) + bytes([lo]) + bytes(b[2:6])) >> 12 == 2:
+                                b[1] = lo
+                                break
+                    buf = with_crc(bytes(b[: total - 2])) + nxt + (b"" if i % 3 else rbytes(rng, 5))
+                    yield Case({"op": "tc_unpack", "raw": hx(buf)}, "invalid" if total < 13 else "any",
+                               tag="declared-length-crafted-" + name)
+        # every place at which a checksum computed in pieces can stand at 0x0000: after the primary header, before the
+        # source ID, after both headers (then continuing over non-empty application data), and at the very end
+        for i in range(400 if thorough else 40):
+            for stage in ("sph", "before-source-id", "headers", "body"):
+                a = zero_crc_tc(rng, stage, dlen=2000 if (i == 7 and stage == "headers") else None)
+                if a is None:
+                    continue
+                yield Case({"op": "tc_pack", **a}, "valid", tag="crc-zero-after-" + stage)
+                if i % 4 == 0:
+                    raw = with_crc(spec_tc(a))
+                    yield Case({"op": "tc_unpack", "raw": hx(raw + rng.choice([b"", rbytes(rng, 2), raw]))}, "valid",
+                               tag="crc-zero-after-" + stage)
         # random octet strings
         for _ in range(20000 if thorough else 3000):
             ln = rng.randint(0, 40)
